@@ -130,11 +130,12 @@ where
     let mut lines = CrlfLines { slice: buf };
 
     // first line
-    match lines.next_line() {
+    // (it can only be compared with the boundary once it has arrived completely)
+    match lines.next_complete_line() {
         None => return Err((body, pat)),
         Some(&[]) => {
             // first boundary
-            match lines.next_line() {
+            match lines.next_complete_line() {
                 None => return Err((body, pat)),
                 Some(line) => {
                     if line != pat_without_crlf {
@@ -396,6 +397,12 @@ impl<'a> CrlfLines<'a> {
         } else {
             Some(mem::take(&mut self.slice))
         }
+    }
+
+    /// poll next line, but only if its CRLF terminator has been received
+    fn next_complete_line(&mut self) -> Option<&'a [u8]> {
+        let has_terminator = memchr_iter(b'\n', self.slice).any(|idx| idx > 0 && self.slice.get(idx.wrapping_sub(1)) == Some(&b'\r'));
+        if has_terminator { self.next_line() } else { None }
     }
 
     /// split by pattern and return previous bytes
